@@ -409,6 +409,9 @@ func GenModel(r *core.PRNG, cfg StreamCfg) *refts.Model {
 				if !r.Chance(1, 2) || st.Units[k-1].Straddle > 0 {
 					continue
 				}
+				if st.Kind == "PAT" && k == 1 {
+					continue // the first PAT must arrive intact: PMT PIDs are only recognised after it
+				}
 				prev, cur := &st.Units[k-1], &st.Units[k]
 				lastLen := len(prev.Sections[len(prev.Sections)-1].Encode())
 				before := 0
